@@ -341,6 +341,9 @@ Qed.
 Theorem p_gheap_strict fuel addr : strict (p_gheap sb fuel addr).
 Proof. unfold p_gheap. strict_auto. Qed.
 
+Theorem api_vlen_string_strict fuel ref : strict (api_vlen_string sb fuel ref).
+Proof. unfold api_vlen_string. strict_auto. apply p_gheap_strict. Qed.
+
 Theorem p_local_heap_strict addr : strict (p_local_heap sb addr).
 Proof. unfold p_local_heap. strict_auto. Qed.
 
